@@ -644,11 +644,66 @@ fn add_stats(out: &mut ShardOut, s: &RunStats) {
     }
 }
 
+/// C11: chunk file names. `Config::chunk_path` + `RaftLog::load_chunk_ids` must round-trip every offset,
+/// and agree with the independent name codec. Boundary values plus random u64 (sampled, not exhaustive).
+fn check_file_names(ctx: &mut Ctx, r: &mut Rng) {
+    use raft_log::{ChunkId, Config, RaftLog};
+    let dir = util::fresh_dir("names");
+    let cfg = Config::new(&dir);
+    let mut xs: Vec<u64> = vec![0, 1, 9, 10, 99, 100, 999, 1000, 1001, u32::MAX as u64 - 1, u32::MAX as u64, u32::MAX as u64 + 1, 1 << 63, (1 << 63) - 1, u64::MAX - 1, u64::MAX];
+    let mut p = 1u64;
+    for _ in 0..19 {
+        p = p.saturating_mul(10);
+        xs.push(p - 1);
+        xs.push(p);
+        xs.push(p.saturating_add(1));
+    }
+    let n_random = if ctx.tier == Tier::Quick { 600 } else { 20_000 };
+    for _ in 0..n_random {
+        let bits = r.range(1, 64);
+        xs.push(r.next() >> (64 - bits));
+    }
+    xs.sort();
+    xs.dedup();
+    let fail = |ctx: &mut Ctx, sig: &str, text: String, x: u64| {
+        ctx.out.viol(Viol { prop: "C11".into(), sig: format!("C11:{}", sig), text, replay: json!({"kind": "filename", "offset": x.to_string()}) });
+    };
+    for chunk in xs.chunks(500) {
+        for x in chunk {
+            let path = cfg.chunk_path(ChunkId(*x));
+            let want = format!("{}/{}", dir, refcodec::chunk_file_name(*x));
+            if path != want {
+                fail(ctx, "file_name_differs_from_reference", format!("offset {}: crate names the chunk {:?}, reference {:?}", x, path, want), *x);
+            }
+            let _ = std::fs::write(&path, b"");
+        }
+        match store::guarded(|| RaftLog::<store::V>::load_chunk_ids(&cfg)) {
+            Ok(Ok(ids)) => {
+                let got: Vec<u64> = ids.iter().map(|c| c.0).collect();
+                if got != chunk {
+                    let bad = chunk.iter().find(|x| !got.contains(x)).copied().unwrap_or(0);
+                    fail(ctx, "file_name_round_trip", format!("{} names written, load_chunk_ids returned {} ids; e.g. offset {} is lost or reordered", chunk.len(), got.len(), bad), bad);
+                }
+            }
+            Ok(Err(e)) => fail(ctx, "load_chunk_ids_error", e.to_string(), chunk[0]),
+            Err(p) => fail(ctx, "load_chunk_ids_panic", p, chunk[0]),
+        }
+        for x in chunk {
+            let _ = std::fs::remove_file(cfg.chunk_path(ChunkId(*x)));
+        }
+        ctx.out.count("file_names_round_tripped", chunk.len() as u64);
+    }
+    util::remove_dir(&dir);
+}
+
 pub fn run_shard(ctx: &mut Ctx) {
     let plan = plan_for(&ctx.prop);
     let mut r = Rng::new(ctx.shard_seed());
     let n_quick = plan.quick_histories;
     let mut h = 0u64;
+    if ctx.prop == "C11" {
+        check_file_names(ctx, &mut r);
+    }
     loop {
         if ctx.tier == Tier::Quick && h >= n_quick {
             break;
